@@ -103,8 +103,11 @@ theorem all_correct {G : GCtx} (ok : G.OK) : ∀ fuel, StmtSpec G fuel ∧ StmtL
             rw [hs.2.2.2.1] at this
             exact this
         | syscall id args =>
-          simp only [okS5, Bool.and_eq_true, decide_eq_true_eq, List.all_eq_true] at hok
-          exact execS_syscall (KOf G pi sp dep hi) _ wf _ id args σ hok.1 hok.2
+          simp only [okS5, sysArgs5, Bool.and_eq_true, Bool.or_eq_true, decide_eq_true_eq, List.all_eq_true] at hok
+          rcases hok.2 with hp | hone
+          · exact execS_syscall (KOf G pi sp dep hi) _ wf _ id args σ hok.1 hp
+          · exact execS_syscall_phase (KOf G pi sp dep hi) _ wf (F + 1) id args σ hok.1
+              (fun f hf => sysPhase_5 ok hpi sp dep hi hlo hspv hstack (F + 1) hcsF1 args hone f (by omega))
         | assignSub n i e =>
           simp only [okS5, Bool.and_eq_true] at hok
           have : optStmt (annotS G.rho (.assignSub n i e))
@@ -113,7 +116,7 @@ theorem all_correct {G : GCtx} (ok : G.OK) : ∀ fuel, StmtSpec G fuel ∧ StmtL
           rw [this]
           exact execS_assignSub (KOf G pi sp dep hi) _ wf _ n i e σ hok.1 hok.2
         | call g args =>
-          simp only [okS5, Bool.and_eq_true, List.all_eq_true, Bool.or_eq_true, List.contains_iff_mem] at hok
+          simp only [okS5, sysArgs5, Bool.and_eq_true, List.all_eq_true, Bool.or_eq_true, List.contains_iff_mem] at hok
           rcases hok with ⟨hps, hargs⟩ | ⟨hvs, hargs⟩
           · exact execS_callStmt ok (F + 1) hcsF1 hpi sp dep hi hlo hspv hstack g args hps
               (argsOK_5 ok hpi sp dep hi hlo hspv hstack (F + 1) hcsF1 args hargs) σ
@@ -123,7 +126,11 @@ theorem all_correct {G : GCtx} (ok : G.OK) : ∀ fuel, StmtSpec G fuel ∧ StmtL
             | some w =>
               rw [hr] at hvs
               simp only [decide_eq_true_eq] at hvs
-              exact execS_valcall (KOf G pi sp dep hi) _ wf _ g args σ w hr hvs hargs
+              rcases hargs with hp | hone
+              · exact execS_valcall (KOf G pi sp dep hi) _ wf _ g args σ w hr hvs hp
+              · exact execS_valcall_of (KOf G pi sp dep hi) _ wf _ g args σ w hr hvs
+                  (execS_syscall_phase (KOf G pi sp dep hi) _ wf (F + 1) w.toNat args σ hvs
+                    (fun f hf => sysPhase_5 ok hpi sp dep hi hlo hspv hstack (F + 1) hcsF1 args hone f (by omega)))
       · intro pi hpi sp dep hi hlo hspv hstack ss σ hok
         have ihS' := ihS pi hpi sp dep hi hlo hspv hstack
         have ihL' := ihL pi hpi sp dep hi hlo hspv hstack
